@@ -44,7 +44,9 @@ class World(BaseWorld):
                     ops.append({'op': 'edit', 'what': ro.choice(['diameter', 'diameter', 'density', 'kT']), 't': ro.randrange(3),
                                 'k': ro.choice([-1, 1, 1, 2]), 'factor': ro.choice([0.5, 0.8, 1.25])})
             ops.append({'op': 'solve', 'guess': 'prev' if s > 0 and ro.random() < 0.7 else ro.choice(['zeros', 'zeros', 'noise']),
-                        'user': simroot.gen_user_solver(ro, n_unknowns), 'via': ro.choice(['prism', 'prism', 'system'])})
+                        'user': simroot.gen_user_solver(ro, n_unknowns), 'via': ro.choice(['prism', 'prism', 'system']),
+                        # solve the PRISM object of the previous solve again (if there is one and nothing was edited since)
+                        'reuse': s > 0 and ro.random() < 0.5})
             if self.do_c03 and ro.random() < 0.3:
                 ops.append({'op': 'cost', 'kind': ro.choice(['big', 'spike', 'sign']), 'amp': ro.choice([1.0, 30.0, 1e3])})
         batch = 'fault_free' if plan['mode'] == 'real' else ('fault_injecting' if plan['mode'] == 'buggify' else 'scripted_solver')
@@ -143,11 +145,18 @@ class World(BaseWorld):
                             P = system.solve(**kw)
                             res = P.minimize_result
                         else:
-                            P = system.createPRISM()
-                            state['P'] = P
-                            if self.do_c03:
-                                self.install_closure_probes(pp, spec, P, r_user, masks, ctx)
-                            res = P.solve(**kw)
+                            if op.get('reuse') and state['P'] is not None:
+                                P = state['P']
+                                ctx.probe('same_object_solved_again')
+                            else:
+                                P = system.createPRISM()
+                                state['P'] = P
+                                if self.do_c03:
+                                    self.install_closure_probes(pp, spec, P, r_user, masks, ctx)
+                            try:
+                                res = P.solve(**kw)
+                            finally:
+                                self.after_solve_attempt(pp, P)
                     except Violation:
                         raise
                     except Exception as e:
@@ -182,6 +191,7 @@ class World(BaseWorld):
                     if self.do_c03:
                         oracles.stored(pp, P, grid, site)
                         oracles.check_core_solved(pp, spec, P, res, grid, r_user, site)
+                        self.check_g_via_api(pp, spec, P, res, grid, r_user, site)
                         ctx.raw(np.asarray(P.totalCorr.data))
                         if mon['n'] >= 20 and any(not sysgen.is_hard_core(spec, a, b) for (a, b) in sysgen.pairs(types)):
                             ctx.probe('mixed_hard_soft')
@@ -193,6 +203,9 @@ class World(BaseWorld):
 
     # C03 hooks (overridden in c03.py)
     def monitor_eval(self, *a):
+        pass
+
+    def after_solve_attempt(self, *a):
         pass
 
     def install_closure_probes(self, *a):
@@ -258,7 +271,7 @@ class World(BaseWorld):
     def expected_probes(self, tier):
         return ['last_eval_differs_from_root', 'success_with_large_residual', 'rank3', 'rank2', 'rank1', 'mixed_closures', 'nonpow2_length',
                 'dk_constructed', 'converged', 'guess_previous_solution', 'regrid_same_length', 'bulk_assignment', 'potential_own_sigma', 'edit_same_system_diameter', 'edit_same_system_density',
-                'edit_same_system_kT', 'domain_resized_in_place', 'converged_krylov', 'converged_hybr', 'converged_lm',
+                'edit_same_system_kT', 'domain_resized_in_place', 'same_object_solved_again', 'converged_krylov', 'converged_hybr', 'converged_lm',
                 'converged_anderson', 'converged_broyden1', 'converged_df-sane']
 
     def rule(self):
